@@ -8,6 +8,8 @@ NOTE = ("Trusted: z3 5.1 / cvc5 1.0.3 verdicts; the pyvc executor's encoding of 
         "bs4/lxml/cssutils; floats under the standard error model (binary64, round-to-nearest, no overflow); "
         "the bounded parts are run-time contract evaluation, never counted as proof. See evidence/<id>.json.")
 CLAIMED = {
+ "C17": ("ground evaluation over the code tables + contract-based deductive verification (AST->SMT VCs: symbolic string lengths, float standard model on the PASS 2-3 region) + bounded round trips through a reference CEA-608 decoder",
+         "P-ground: every byte the writer can emit has odd parity, PAC rows 1-15, control words are the CEA-608 codes; P: half-word / word-boundary arithmetic of the code string, PASS 2-3 transmission times (words+8 frames early, erase line kept only if >3 frames before the next line, non-negative non-decreasing times) for two captions; B: timestamp formatting around every boundary, full round trips (reference decoder + own reader)", "3 C17"),
  "C06": ("contract-based deductive verification (AST->SMT VCs: float standard model for the timecode arithmetic, loop invariants over a field-array heap for the caption-list corrections) + bounded run-time contracts on generated pop-on programs",
          "P: timecode + frames -> microseconds (drop / non-drop 1001/1000, offset, floor at 0) within 16 ulp, get_time adds the counted frames, exactly one frame per word, gap under five frames closed / longer kept for any batch length, trailing captions without end last four seconds for any list length; B: programs x drop/non-drop x doubled x inline/separate EDM x gaps x offsets against exact-rational reference timing (one known finding: offset beyond a caption end)", "3 C06"),
  "C10": ("frame / object-invariant obligations discharged by a syntactic effect checker over the real ASTs + bounded run-time history and isolation contracts incl. hash seeds",
